@@ -14,6 +14,49 @@ PROPS = ['Props/C07']
 DISABLED = True
 FUEL = 200
 
+
+def TIMEOUT(ctx):
+  return 600 if ctx.tier == 'quick' else 2400      # per shard; the build machine is shared
+
+RULE = ('cells: values from the grammar of harness/pyvalues.py plus edge lists (0/1/1.0 for Bool, ints for Numeric, JSON-looking and '
+        'RecordList-looking strings, tuples and nested tuples, bytes, naive/aware/end-of-calendar datetimes, records, big ints, errors '
+        'with and without user input and with .error missing, stubs) x every column type; each is stored the way the engine stores it '
+        '(column.convert then column.set; or decode_object then set; or raw for Any/Blob), then sent through the real load path '
+        '(encode_object, blob, marshal, main.table_data_from_db, column.set) and through the model; strict_equal/equal_encoding on '
+        '(saved, reloaded) pairs, clones, re-decoded and random pairs; get_cell_value of every error cell. search: histories from '
+        'harness/histgen.py extended with trigger-formula data columns (every third history starts from an Any/Text/Blob/Numeric '
+        'trigger column with a rich formula and a formula inspecting it); after every successful bundle of a clean document the REAL '
+        'reload (fetch_table(formulas=True) -> get_action_repr -> blobs -> marshal -> table_data_from_db -> load_meta_tables/load_table '
+        '-> Calculate) must store nothing and report the same tables. A cell case is non-trivial when the encoding is a list or the '
+        'reloaded object differs; a search case when the document has rows.')
+TRUSTED = ['hand-written model Model/Reload.v (column.<Class>.set, main._decode_db_value, strict_equal, equal_encoding, the change '
+           'detection of _recompute_step/_changes_to_actions, what get_cell_value raises) on top of Model/Values.v (C22/C24), compared '
+           'with the running functions on every case',
+           'marshal.dumps/loads are not modelled: Section variables; the model names marshalled bytes by a digest',
+           'oracles of Model/Values.v (repr/str of objects, json.loads, tz database, ...) filled per case from the running library',
+           'harness/pyvalues.py: Python value -> Coq literal; harness/histgen.py: history generator']
+ASSUMPTIONS = ['marshal_rt (monitored on every value): marshal.loads(marshal.dumps(x)) = x for an encoded cell and for the blob holding it',
+               'lib_facts (monitored; C24): UTC is a zone, timedelta(seconds=total_seconds) exact on whole days and within 16 us otherwise, '
+               'zone offsets below a day and self-consistent',
+               'node_ok / node_dt (C24): unencoded fields of errors and stubs are marshalable, no str-subclass dict keys, dates inside the '
+               'calendar, datetimes a day inside it',
+               'the observation of a cell by a formula is a function of the column and the raw object (monitored by reading twice)',
+               'Node-side number typing and volatile formulas are outside the property; documents are clean and acyclic (histgen)',
+               'objects with user-defined __eq__ and NaN inside containers (CPython identity shortcut) are outside the modelled domain of ==']
+TECHNIQUE = 'Coq proof over a hand-written executable model of the load path + differential cases (vm_compute) + real reload of generated documents'
+LEVEL_TEXT = ('Kernel-checked theorems about the model of the load path, for every column type, any recursion fuel, arbitrary library '
+              'oracles and arbitrary marshal functions that round-trip the cell: the reloaded cell has the encoding of the saved one '
+              '(C07_value_roundtrip_partial), a recomputed cell with an unchanged encoding produces no stored action (C07_no_stored, '
+              'C07_reloaded_cell_quiet_partial), storable covers everything column.set stores (C07_storable_covers_set), and cells made of '
+              'None/bool/int/float/str/lists (every right-type value and alt text of the typed columns) come back as the same object, so a '
+              'dependent formula observes the same (C07_reload_observably_equal_partial). The full observation statement is refuted by '
+              'witnesses replayed on the engine.')
+LEVEL_NOTE = ('Kernel level for the cell; the document level ("Calculate emits nothing, same tables") is the composition with C05 '
+              '(recalculation from scratch) and is exercised by the real-reload search. Findings on the unchanged tree: (1) decoded error '
+              'cells lose .error, dependents recompute to [E, NoneType]; (2) Any/Blob data cells hold objects richer than their encoding '
+              '(tuple, naive datetime, Record, bytes, big int, ...), dependents recompute differently; (3) datetime.max reloads as an '
+              'OverflowError value (C24 defect).')
+
 # ---- the real reload -----------------------------------------------------------------------------------------
 
 
@@ -94,13 +137,19 @@ def ctype_lit(t):
 def real_set(t, v):
   """column.set on the real column object; ('ok', stored raw) or ('raise', class name)."""
   col = fixture()[t]
+
+  def reset():
+    if hasattr(col, '_sorted_rows'):
+      col._sorted_rows.clear()      # PositionColumn keeps rows sorted by value: junk values must not meet each other
+    col._data[2] = col.getdefault()
+  reset()
   try:
     col.set(2, v)
     raw = col.raw_get(2)
   except Exception as ex:
-    col.set(2, col.getdefault())
+    reset()
     return 'raise', type(ex).__name__
-  col.set(2, col.getdefault())
+  reset()
   return 'ok', raw
 
 
@@ -200,7 +249,7 @@ def gen_cells(ctx):
   rng = ctx.rng
   cols = fixture()
   out = []
-  vals = [pv.gen_value(rng) for _ in range(ctx.n(110, 4000))] + EDGE_VALUES + edge_objects()
+  vals = [pv.gen_value(rng) for _ in range(ctx.n(110, 1500))] + EDGE_VALUES + edge_objects()
   for v in vals:
     edge = len(out) >= 0 and (v is None or not isinstance(v, (int, float, str)) or rng.random() < 0.3)
     ts = [rng.choice(COLTYPES)]
@@ -341,7 +390,7 @@ def correspond_cells(ctx):
   ctx.log('literals: %d set, %d reload cases' % (len(set_cases), len(rl_cases)))
   bad = ctx.run_cases('set', IMPORTS,
                       'fun c => match c with (v, tbl, T, r) => res_eqb value_eqb (col_set (oracles_of tbl) T v) r end',
-                      set_cases, shard=120, case_type='value * tables * ctype * result value')
+                      set_cases, shard=120, timeout=TIMEOUT(ctx), case_type='(value * tables * ctype * result value)%type')
   for k in bad[:6]:
     t, v = set_meta[k]
     ctx.broken('correspondence:model col_set differs from column.set',
@@ -349,8 +398,8 @@ def correspond_cells(ctx):
   bad = ctx.run_cases('reload', IMPORTS,
                       'fun c => match c with (v, tbl, T, mp, err, r) => res_eqb cell_eqb '
                       '(reload (oracles_of tbl) (marshal_of mp) (unmarshal_of mp) T %d (v, err)) r end' % FUEL,
-                      rl_cases, shard=120,
-                      case_type='value * tables * ctype * list (value * list Z) * option str * result cell')
+                      rl_cases, shard=120, timeout=TIMEOUT(ctx),
+                      case_type='(value * tables * ctype * list (value * list Z) * option str * result cell)%type')
   for k in bad[:6]:
     t, v = rl_meta[k]
     r2 = real_cell_reload(t, v)[0]
@@ -416,7 +465,7 @@ def correspond_compare(ctx):
   for t, raw, rl in stored:
     if rl is not None:
       pairs.append((raw, rl, 'saved-vs-reloaded'))
-  for _ in range(ctx.n(200, 4000)):
+  for _ in range(ctx.n(200, 2500)):
     a = rng.choice(pool)
     k = rng.random()
     if k < 0.35:
@@ -462,16 +511,16 @@ def correspond_compare(ctx):
         ee_cases.append(lit)
         ee_meta.append((a, b))
         ctx.count('e' + lit, nontrivial=True, kind='equal_encoding:%s:%s' % (how, r))
-  ctype = 'value * value * tables * bool'
+  ctype = '(value * value * tables * bool)%type'
   bad = ctx.run_cases('strict', IMPORTS, 'fun c => match c with (a, b, tbl, r) => Bool.eqb (strict_equal (oracles_of tbl) a b) r end',
-                      se_cases, shard=150, case_type=ctype)
+                      se_cases, shard=150, timeout=TIMEOUT(ctx), case_type=ctype)
   for k in bad[:6]:
     a, b = se_meta[k]
     ctx.broken('correspondence:model strict_equal differs from objtypes.strict_equal',
                '%s vs %s -> %r' % (pv.to_expr(a)[:100], pv.to_expr(b)[:100], objtypes.strict_equal(a, b)))
   bad = ctx.run_cases('equalenc', IMPORTS,
                       'fun c => match c with (a, b, tbl, r) => Bool.eqb (equal_encoding (oracles_of tbl) %d a b) r end' % FUEL,
-                      ee_cases, shard=150, case_type=ctype)
+                      ee_cases, shard=150, timeout=TIMEOUT(ctx), case_type=ctype)
   for k in bad[:6]:
     a, b = ee_meta[k]
     ctx.broken('correspondence:model equal_encoding differs from objtypes.equal_encoding',
@@ -511,8 +560,8 @@ def correspond_observe(ctx):
         cases.append(lit)
         meta.append((t, c))
         ctx.count('o' + lit, nontrivial=True, kind='observe:error:%s' % ('decoded' if c.error is None else 'raised'))
-  bad = ctx.run_cases('observe', IMPORTS, 'fun c => obs_eqb (observe (fst c)) (ORaise (snd c))', cases, shard=300,
-                      case_type='cell * str')
+  bad = ctx.run_cases('observe', IMPORTS, 'fun c => obs_eqb (observe (fst c)) (ORaise (snd c))', cases, shard=300, timeout=TIMEOUT(ctx),
+                      case_type='((value * option (list Z)) * list Z)%type')
   for k in bad[:6]:
     t, c = meta[k]
     ctx.broken('correspondence:model observe differs from column.get_cell_value',
@@ -523,11 +572,13 @@ def correspond_observe(ctx):
       continue
     col = fixture()[t]
     col._data[2] = raw
-    try:
-      a, b = col.get_cell_value(2), col.get_cell_value(2)
-      ok = type(a) is type(b)
-    except Exception as ex:
-      ok = False
+
+    def read():
+      try:
+        return 'value', type(col.get_cell_value(2)).__name__
+      except Exception as ex:
+        return 'raise', type(ex).__name__
+    ok = read() == read()
     col._data[2] = col.getdefault()
     if not ok:
       ctx.broken('monitor:get_cell_value is not a function of the raw object', '%s %s' % (t, pv.to_expr(raw)[:100]))
@@ -593,11 +644,331 @@ def monitors(ctx):
       break
 
 
+CHANGE_VALUES = [None, True, False, 0, 1, 2, -1, 2 ** 31, 2 ** 40, 0.0, -0.0, 1.0, 2.0, 1.5, float('nan'), float('inf'), '', 'a', '1', 'True',
+                 [], [1], [1.0], [True], [1, 2], ['a'], (), (1,), (1, 2), [(1, 2)], [[1, 2]], {}, {'a': 1}, {'a': 1.0}, {'a': (1,)}, [None], b'a']
+
+
+def correspond_engine_changes(ctx):
+  """recompute_cell / flush_cell against the engine itself: a formula cell of an Any column goes from `prev` to `new` because a
+  data cell it reads was updated; the model must say whether the cell's object was replaced and whether a stored action names it."""
+  from harness import gristenv as G
+  rng = ctx.rng
+  pairs = [(a, b) for a in CHANGE_VALUES[:12] for b in CHANGE_VALUES[:12]]
+  pairs += [(rng.choice(CHANGE_VALUES), rng.choice(CHANGE_VALUES)) for _ in range(ctx.n(60, 600))]
+  pairs += [(v, clone(v)) for v in CHANGE_VALUES]
+  cases, meta = [], []
+  for k in range(0, len(pairs), 40):
+    part = pairs[k:k + 40]
+    e, _ = G.new_doc()
+    cols = [{'id': 'A', 'type': 'Int', 'isFormula': False}]
+    for i, (a, b) in enumerate(part):
+      cols.append({'id': 'F%d' % i, 'type': 'Any', 'isFormula': True, 'formula': '(%s) if $A == 0 else (%s)' % (pv.to_expr(a), pv.to_expr(b))})
+    G.apply(e, [['AddTable', 'T', cols]])
+    G.apply(e, [['AddRecord', 'T', None, {'A': 0}]])
+    before = [e.tables['T'].get_column('F%d' % i).raw_get(1) for i in range(len(part))]
+    out = G.apply(e, [['UpdateRecord', 'T', 1, {'A': 1}]])
+    named = set()
+    for a in G.reprs(out.stored):
+      if a[0] in ('UpdateRecord', 'BulkUpdateRecord') and a[1] == 'T':
+        named.update(a[3].keys())
+    for i, (a, b) in enumerate(part):
+      prev, after = before[i], e.tables['T'].get_column('F%d' % i).raw_get(1)
+      if not pv.same(prev, a):
+        raise core.TieBroken('formula cell F%d holds %r, not %r' % (i, prev, a))
+      replaced = after is not prev
+      bd = pv.Builder()
+      bd.collect(prev)
+      bd.collect(after)
+      lit = '(%s, %s, %s, %s, %s)' % (bd.val(prev), bd.val(b), bd.tables(NEED), pv.blit(replaced), pv.blit(('F%d' % i) in named))
+      cases.append(lit)
+      meta.append((a, b, replaced, ('F%d' % i) in named))
+      ctx.count('c' + lit, nontrivial=True, kind='engine-change:%s:%s' % ('replaced' if replaced else 'kept', 'stored' if ('F%d' % i) in named else 'quiet'))
+  bad = ctx.run_cases('changes', IMPORTS,
+                      'fun c => match c with (p, n, tbl, replaced, stored) => '
+                      'let chg := recompute_cell (oracles_of tbl) p n in '
+                      'Bool.eqb (match chg with Some _ => true | None => false end) replaced && '
+                      'Bool.eqb (match flush_cell (oracles_of tbl) %d chg with Some _ => true | None => false end) stored end' % FUEL,
+                      cases, shard=200, timeout=TIMEOUT(ctx), case_type='(value * value * tables * bool * bool)%type')
+  for k in bad[:6]:
+    a, b, replaced, stored = meta[k]
+    ctx.broken('correspondence:model recompute_cell/flush_cell differ from Engine._recompute_step / _changes_to_actions',
+               'cell going from %s to %s: object replaced=%r, named in a stored action=%r' % (pv.to_expr(a), pv.to_expr(b), replaced, stored))
+  ctx.extra['cases_in_coq'] = ctx.extra.get('cases_in_coq', 0) + len(cases)
+
+
 def correspond(ctx):
   core.setup_impl_path()
+  correspond_engine_changes(ctx)
+  ctx.log('engine change detection evaluated')
   correspond_cells(ctx)
   ctx.log('cells evaluated')
   correspond_compare(ctx)
   correspond_observe(ctx)
   monitors(ctx)
   ctx.log('comparisons, reads and monitors done')
+
+
+# ---- search: real reloads of documents reached by histories ---------------------------------------------------
+
+RICH_FORMULAS = ['(1, 2)', '[1, (2, 3)]', 'datetime.datetime(2020, 1, 1, 10, 30)', 'datetime.date(2020, 1, 2)', '2 ** 40', 'b"ab"',
+                 '{1: 2}', '{"a": (1,)}', 'set([1])', 'NoSuchName', '1 / 0', 'rec', '1j', 'float("nan")', 'float("inf")', '-0.0',
+                 '"[1, 2]"', '[$id, None, 1.5, "x"]', 'True', 'None', '10 ** 400']
+PROBES = ['type($%s).__name__', 'repr($%s)', '$%s', 'str($%s)', '$%s == (1, 2)', 'bool($%s)']
+
+
+def make_gen(rng, rich):
+  from harness import histgen
+
+  class Gen(histgen.HistGen):
+    """HistGen plus data columns with trigger formulas (computed for new records / on manual updates) and, in the `rich`
+    stream, formulas returning objects richer than their encoding and formulas that inspect what they read."""
+
+    def gen(self, kind, meta):
+      r = self.r
+      if kind not in ('addtrigger', 'addprobe'):
+        return histgen.HistGen.gen(self, kind, meta)
+      t = self.pick_table(meta)
+      if t is None:
+        return None
+      tid, tref = t['tableId'], t['id']
+      cid = r.choice(histgen.COL_NAMES)
+      if kind == 'addtrigger':
+        level = r.choice([1, 2])
+        self.pend(tid, cid, level)
+        f = r.choice(RICH_FORMULAS) if (rich and r.random() < 0.7) else self.formula(meta, tref, level)
+        return ['AddColumn', tid, cid, {'type': r.choice(['Any', 'Any', 'Text', 'Int', 'Numeric', 'ChoiceList', 'Date', 'Bool']),
+                                        'isFormula': False, 'formula': f, 'recalcWhen': r.choice([0, 2])}]
+      level = 3
+      own = self.lower_cols(meta, tref, level)
+      trig = [c for c in own if c['formula'] and not c['isFormula']]
+      if trig and r.random() < 0.75:
+        own = trig
+      if not own:
+        return None
+      self.pend(tid, cid, level)
+      return ['AddColumn', tid, cid, {'type': 'Any', 'isFormula': True, 'formula': r.choice(PROBES) % r.choice(own)['colId']}]
+
+  w = {'addtrigger': 6, 'addprobe': 8 if rich else 0, 'todata': 3, 'invalid': 1, 'summary': 1, 'label': 0}
+  return Gen(rng, weights=w)
+
+
+def build(history):
+  """Engine after the bundles of `history` (failed bundles are skipped and the document cleaned, as in the search)."""
+  from harness import gristenv as G
+  e, _ = G.new_doc()
+  for b in history:
+    try:
+      G.apply(e, copy.deepcopy(b))
+    except Exception:
+      G.clean(e)
+  return e
+
+
+def richer_than_encoding(v, depth=0):
+  """The object (or an object inside it) is of a class its encoding cannot tell: tuple, bytes, int outside 32 bits, subclass
+  instance, naive or foreign-zone datetime, record, record set, RecordList, set, dict with non-str keys, AltText, any other object."""
+  import datetime
+  import moment
+  t = type(v)
+  if v is None or t in (bool, float, str):
+    return False
+  if t is int:
+    return not (-2 ** 31 <= v < 2 ** 31)
+  if t is list:
+    return depth > 40 or any(richer_than_encoding(x, depth + 1) for x in v)
+  if t is dict:
+    return depth > 40 or any(type(k) is not str or richer_than_encoding(x, depth + 1) for k, x in v.items())
+  if t is datetime.date:
+    return False
+  if t is datetime.datetime:
+    return not isinstance(v.tzinfo, moment.TzInfo)
+  return True
+
+
+def lossy_cells(e, f):
+  """data cells whose reloaded raw object differs from the saved one: (table, col, row, kind)"""
+  import datetime
+  import objtypes
+  out = []
+  for t in e.tables:
+    if t.startswith('_grist_') or t not in f.tables:
+      continue
+    te, tf = e.tables[t], f.tables[t]
+    for cid, col in te.all_columns.items():
+      if col.is_formula() or cid == 'id' or cid not in tf.all_columns:
+        continue
+      for r in te.row_ids:
+        a, b = col.raw_get(r), tf.all_columns[cid].raw_get(r)
+        ea, eb = isinstance(a, objtypes.RaisedException), isinstance(b, objtypes.RaisedException)
+        if ea and eb:
+          if a.error is not None and b.error is None:
+            out.append((t, cid, r, 'err'))
+        elif isinstance(a, datetime.datetime) and eb and b._name == 'OverflowError':
+          out.append((t, cid, r, 'dtmax'))
+        elif not pv.same(a, b) and not (ea or eb):
+          try:
+            stub = type(a).__name__ in ('RecordStub', 'RecordSetStub', 'UnmarshallableValue') and type(a) is type(b) and vars(a) == vars(b)
+          except Exception:
+            stub = False
+          if not stub:
+            # only objects of the known lossy classes count as the known finding; a differing cell whose saved object is
+            # made of None/bool/short int/float/str/list/str-keyed dict/date only is something else
+            out.append((t, cid, r, 'rich' if richer_than_encoding(a) else 'other'))
+  return out
+
+
+def raw_clone(e):
+  """The same load, without the encoding leg: the new engine is handed the saved engine's own Python objects."""
+  import engine as engine_mod
+  from harness import gristenv as G
+  f = engine_mod.Engine()
+  names = f.load_meta_tables(e.fetch_table('_grist_Tables'), e.fetch_table('_grist_Tables_column'))
+  for t in names:
+    f.load_table(e.fetch_table(t, formulas=True))
+  out = G.apply(f, [['Calculate']])
+  return f, out
+
+
+def outcome(f, out):
+  from harness import gristenv as G
+  return G.snapshot(f), G.norm(G.reprs(out.stored))
+
+
+def check_reload(e, classify=True):
+  """[] or a list of (kind, description): what reopening the document `e` reports changes."""
+  from harness import gristenv as G
+  s1 = G.snapshot(e)
+  quiet = (s1, [])
+  try:
+    got = outcome(*real_reload(e))
+  except Exception:
+    return [('reload-raises', 'loading the saved document raised: ' + traceback.format_exc()[-300:])]
+  if got == quiet:
+    return []
+  what = 'Calculate after reload stored %s; %s' % (repr(got[1])[:260], '; '.join(G.diff_snapshots(s1, got[0], limit=3)))
+  if not classify:
+    return [('changed', what)]
+  issues = []
+  # Was the document stale before it was saved?  A load of the engine's own objects (no encoding, no marshal, no decoding)
+  # that already changes something is recalculation from scratch disagreeing with the incremental state: C05's subject.
+  target = quiet
+  try:
+    base = outcome(*raw_clone(e))
+  except Exception:
+    base = None
+  if base is not None and base != quiet:
+    issues.append(('stale_before_save', 'a load of the saved engine\'s own objects (no encoding leg) already changes the document: '
+                   'Calculate stored %s; %s' % (repr(base[1])[:200], '; '.join(G.diff_snapshots(s1, base[0], limit=2)))))
+    target = base
+    if got == base:
+      return issues
+  f = real_reload(e)[0]
+  cells = lossy_cells(e, f)
+  for modes, kind in ((('err',), 'decoded_error_cell_loses_error'), (('rich',), 'rich_cell_value_not_restored'),
+                      (('dtmax',), 'datetime_end_of_calendar'), (('err', 'rich', 'dtmax'), 'lossy_cells_mixed')):
+    sel = [c for c in cells if c[3] in modes]
+    if not sel:
+      continue
+
+    def hook(g, sel=sel):
+      # the counterfactual: the same reload, with exactly these cells given back what the saved engine held
+      for (t, cid, r, mode) in sel:
+        a = e.tables[t].all_columns[cid].raw_get(r)
+        col = g.tables[t].all_columns[cid]
+        if mode == 'err':
+          col.raw_get(r).error = a.error
+        else:
+          col._data[r] = a
+    try:
+      got2 = outcome(*real_reload(e, hook))
+    except Exception:
+      continue
+    if got2 == target:
+      t, cid, r, _m = sel[0]
+      issues.append((kind, '%s [cured by restoring %d cell(s), e.g. %s.%s row %s = %s]' % (
+        what, len(sel), t, cid, r, pv.to_expr(e.tables[t].all_columns[cid].raw_get(r))[:80])))
+      return issues
+  issues.append(('unexplained', what))
+  return issues
+
+
+def search(ctx):
+  from harness import gristenv as G
+  from harness import histgen
+  core.setup_impl_path()
+  n_hist, nb = ctx.n(24, 400), ctx.n(8, 14)
+  reported = collections.Counter()
+  for h in range(n_hist):
+    rich = h % 3 == 2
+    seed = ctx.rng.getrandbits(48)
+    rng = random.Random(seed)
+    gen = make_gen(rng, rich)
+    e, _ = G.new_doc()
+    history = []
+    for step in range(nb + 2):
+      bundle = [gen.gen_addtable(histgen.Meta(e))] if step < 1 else gen.bundle(e)
+      if rich and step < 2:
+        # the rich stream starts from a data column R filled by a trigger formula and a formula P that inspects it
+        if step == 0:
+          bundle[0][2] += [{'id': 'R', 'type': rng.choice(['Any', 'Any', 'Text', 'Blob', 'Numeric']), 'isFormula': False,
+                            'formula': rng.choice(RICH_FORMULAS), 'recalcWhen': 0},
+                           {'id': 'P', 'type': 'Any', 'isFormula': True, 'formula': rng.choice(PROBES) % 'R'}]
+        else:
+          bundle = [['BulkAddRecord', G.user_tables(e)[0], [None, None], {}]]
+      try:
+        G.apply(e, copy.deepcopy(bundle))
+      except Exception:
+        G.clean(e)
+        ctx.bump('bundle:failed')
+        continue
+      gen.after_bundle(e)
+      history.append(bundle)
+      ctx.bump('bundle:ok')
+      try:
+        if G.apply(e, [['Calculate']]).stored:
+          ctx.bump('skipped:document not clean')      # C04's business
+          continue
+      except Exception:
+        continue
+      res = check_reload(e)
+      n_err = sum(1 for t in G.user_tables(e) for c in e.tables[t].all_columns.values() for r in e.tables[t].row_ids
+                  if type(c.raw_get(r)).__name__ == 'RaisedException')
+      ctx.count(('reload', seed, step), nontrivial=len(G.user_tables(e)) > 0 and any(e.tables[t].row_ids for t in G.user_tables(e)),
+                kind='search:%s:%s' % ('rich' if rich else 'plain', '+'.join(k for k, _w in res) if res else ('ok+errors' if n_err else 'ok')))
+      for kind, what in res:
+        reported[kind] += 1
+        if reported[kind] > (1 if kind != 'unexplained' else 4):
+          continue          # keep walking: a later state may fail for a reason the known repairs do not cure
+        # shrink the history while the same kind of failure remains
+        def fails(hs, kind=kind):
+          try:
+            r2 = check_reload(build(hs))
+          except Exception:
+            return False
+          return any(k == kind for k, _w in r2)
+        small = histgen.shrink_list(history, fails, max_steps=ctx.n(40, 120))
+        ctx.violation(kind, what, {'history': small, 'kind': kind})
+  ctx.extra['search_histories'] = n_hist
+
+
+def replay(ctx, w):
+  core.setup_impl_path()
+  res = check_reload(build(w['history']))
+  for kind, what in res:
+    if not w.get('kind') or kind == w['kind']:
+      return '%s: %s' % (kind, what)
+  return None
+
+
+def _mixed_or(kind):
+  def m(violation, entry):
+    return violation.get('kind') in (kind, 'lossy_cells_mixed') and entry.get('violation_kind') == kind
+  return m
+
+
+# A violation is attributed to a known root cause only by the counterfactual of check_reload: the same reload, with exactly
+# the cells of that kind given back their saved objects, changes nothing. 'lossy_cells_mixed' = cured only by both repairs.
+MATCHERS = {
+  'decoded_error_cell_loses_error': _mixed_or('decoded_error_cell_loses_error'),
+  'rich_cell_value_not_restored': _mixed_or('rich_cell_value_not_restored'),
+}
